@@ -1,5 +1,5 @@
 SPECIFICATION Spec
-CONSTANTS MaxOps = 4
+CONSTANTS MaxOps = 3
           MaxLen = 3
 INVARIANT Emit
 CONSTRAINT Bounded
